@@ -25,7 +25,8 @@ RULE = ("Engine B on a grammar product: states = distinct generator prefixes (na
         "formatted with PkgRelation.str and parsed with parse_relations; evaluations = individual oracle "
         "comparisons (str does not raise, parse does not raise, no warning, structure equal, second str equal); "
         "non-trivial = structures in which some atom carries at least two of the four optional parts (so that "
-        "optional regex groups are adjacent)")
+        "optional regex groups are adjacent); sweep: one state / transition / trace per single fully featured atom in "
+        "which one component carries one swept character")
 BUDGET = {"quick": 240, "thorough": 3000}
 
 KEYS = ("name", "archqual", "version", "arch", "restrictions")
@@ -41,6 +42,8 @@ def bounds(tier):
             "version": "11 (absent, 5 operators x 2 versions)", "arch_lists": 4, "restriction_formulas": 4,
             "atoms": 3520, "pair_core": pc, "pairs": "%d ordered pairs x {OR, AND}" % (pc * pc),
             "triple_core": tc, "triples": "%d ordered triples x 4 AND/OR shapes" % (tc ** 3),
+            "sweep": "one legal character at a time in one component of a fully featured single atom (%s): "
+                     % SWEEP_BASE_TEXT + ", ".join("%s x %d" % (name, len(vals)) for name, vals in sweep_plan()),
             "core_selection": "deterministic greedy cover of all 2-way combinations of component values and all 16 "
                               "presence masks of the optional parts, then an even stride; independent of the seed"}
 
@@ -54,6 +57,10 @@ def assumptions():
         "structures are compared with == (namedtuples compare as tuples); the second str() would fail on a result "
         "whose elements lost their attribute names",
         "seed rotates only a letter inside package and profile names; regex character classes seen are the same",
+        "sweep character sets (policy, not what the regex happens to take): package names a<c>b with c in [a-z0-9+.-], "
+        "architecture qualifiers and architecture names a<c>b with c in [a-z0-9-], versions 1<c>2 with c in "
+        "[A-Za-z0-9.+~-] and the epoch colon as '1:2', build-profile names a<c>b with c in [a-z0-9+.-] (the parser takes "
+        "any run of non-blank characters and lower-cases it; upper case is therefore not demanded)",
     ]
 
 
@@ -77,6 +84,38 @@ def comps(seed):
 
 
 RADIX = (4, 5, 11, 4, 4)
+
+# ------------------------------------------------------------------------------------------------
+# sweep: one legal character at a time in a fully featured atom
+
+_LOWER = "abcdefghijklmnopqrstuvwxyz"
+_DIGITS = "0123456789"
+SWEEP_BASE = ["pkg", "any", [">=", "1.0"], [[True, "linux-any"], [True, "kfreebsd-amd64"]],
+              [[[False, "nocheck"], [True, "cross"]], [[True, "stage1"]]]]
+SWEEP_BASE_TEXT = "pkg:any (>= 1.0) [linux-any kfreebsd-amd64] <!nocheck cross> <stage1>"
+
+
+def sweep_plan():
+    """-> [(component, [atom, ...])] in canonical order; every atom differs from SWEEP_BASE in one component"""
+    name_c = list(_LOWER + _DIGITS + "+.-")
+    arch_c = list(_LOWER + _DIGITS + "-")
+    ver_c = list(_DIGITS + _LOWER + _LOWER.upper() + ".+~-") + [":"]
+
+    def put(i, x):
+        a = list(SWEEP_BASE)
+        a[i] = x
+        return a
+    return [
+        ("name", [put(0, "a%sb" % c) for c in name_c]),
+        ("archqual", [put(1, "a%sb" % c) for c in arch_c]),
+        ("version", [put(2, [op, "1%s2" % c]) for c in ver_c for op in (">=",)] +
+                    [put(2, [op, "1%s2-3" % c]) for c in "+~." for op in ("<<", "=")]),
+        ("arch", [put(3, a) for c in arch_c for a in ([[True, "a%sb" % c], [True, "amd64"]],
+                                                      [[False, "i386"], [False, "a%sb" % c]])]),
+        ("profile", [put(4, r) for c in name_c for r in ([[[False, "a%sb" % c], [True, "cross"]], [[True, "stage1"]]],
+                                                         [[[True, "stage1"]], [[True, "cross"], [True, "a%sb" % c]]])]),
+    ]
+
 
 
 def all_indexes():
@@ -234,6 +273,7 @@ def units(tier, seed):
     pc, tc = cores(tier)          # computed once in the parent; units carry the cores to the workers
     out += [("pairs", i, pc) for i in range(len(pc))]
     out += [("triples", i, tc) for i in range(len(tc))]
+    out += [("sweep", name) for name, _v in sweep_plan()]
     return out
 
 
@@ -242,6 +282,8 @@ def unit_cost(u, tier):
         return 176
     if u[0] == "pairs":
         return 2 * 2 * len(u[2])
+    if u[0] == "sweep":
+        return 80
     return 3 * 4 * len(u[2]) ** 2
 
 
@@ -288,6 +330,22 @@ def run_unit(u, tier, seed):
                     part.extra["single atoms"] += 1
                     if (v, a, r) in ((0, 0, 0), (5, 2, 3)):
                         part.sample(case)
+        return part
+    if u[0] == "sweep":
+        atoms = dict(sweep_plan())[u[1]]
+        part.max_depth = 5
+        for a in atoms:
+            node()
+            case = {"rels": [[a]]}
+            bad, outcome, ev = exec_case(case)
+            part.traces += 1
+            part.evaluations += ev
+            part.outcomes["sweep/%s: %s" % (u[1], outcome)] += 1
+            part.nontrivial += 1
+            for sig, exp, obs in bad:
+                part.violation(sig, case, exp, obs)
+            part.extra["sweep atoms"] += 1
+        part.sample({"rels": [[atoms[0]]]})
         return part
     if u[0] == "pairs":
         _, i, pc = u
